@@ -230,6 +230,35 @@ fn main() {
             if rel != abs || rel2 != abs || incwd != abs { ctx.violation("stdout_depends_on_cwd", format!("{sub} on {name}"), json!({"kind":"cwd","repo":name}), format!("abs {:?} rel {:?} rel2 {:?} cwd {:?}", abs.stdout_str(), rel.stdout_str(), rel2.stdout_str(), incwd.stdout_str())); }
         }
     }
+    // a start directory reached through a symbolic link, with $PWD holding the logical (link) path, the physical path, a stale
+    // path or nothing: a relative `-C ..` is resolved by the operating system (physically); the shell's idea of the current
+    // directory is an unrelated environment variable
+    {
+        let pairs: Vec<(usize, usize)> = (0..repos.len()).flat_map(|i| (0..repos.len()).map(move |j| (i, j))).filter(|(i, j)| i != j).take(if quick { 2 } else { 6 }).collect();
+        for (i, j) in pairs {
+            let (phys_repo, link_repo) = (&repos[i].1.dir, &repos[j].1.dir);
+            let inner = phys_repo.join("zz_inner_dir");
+            let link = link_repo.join("zz_link_dir");
+            let _ = std::fs::create_dir(&inner);
+            let _ = std::fs::remove_file(&link);
+            std::os::unix::fs::symlink(&inner, &link).unwrap_or_else(|e| machinery_error(&format!("symlink: {e}")));
+            for sub in ["version", "flow"] {
+                let abs = zv::run_bin(&[sub, "-C", &phys_repo.to_string_lossy()], None, &[], Some(Path::new("/")));
+                let logical = link.to_string_lossy().to_string();
+                let physical = inner.to_string_lossy().to_string();
+                for (what, pwd) in [("logical", Some(logical.as_str())), ("physical", Some(physical.as_str())), ("stale", Some("/nonexistent/dir")), ("relative", Some(".")), ("unset", None)] {
+                    let env: Vec<(&str, &str)> = match pwd { Some(p) => vec![("PWD", p)], None => vec![] };
+                    for c in ["..", "../", "./..", "../."] {
+                        let o = zv::run_bin(&[sub, "-C", c], None, &env, Some(&link));
+                        s2.inc("process_runs"); s2.inc("symlinked_cwd_cases");
+                        if o != abs { ctx.violation("stdout_depends_on_cwd", format!("{sub} -C {c} from a symlinked directory with PWD {what}"), json!({"kind":"cwd-symlink","pwd":what}), format!("printed {:?} / {:?}, the physical parent repository gives {:?}", o.stdout_str(), truncate(&o.stderr_str(), 120), abs.stdout_str())); }
+                    }
+                }
+            }
+            let _ = std::fs::remove_file(&link);
+            let _ = std::fs::remove_dir(&inner);
+        }
+    }
     // the user's git configuration (~/.gitconfig, here via GIT_CONFIG_GLOBAL) is part of the environment: settings that only
     // change how git *presents* its answers (columns, colours, sorting, pagers, status decorations, log formats, encodings,
     // abbreviation, advice) must not change what zerv reports. Settings that change repository semantics (excludesFile,
